@@ -141,7 +141,7 @@ def run(pid, tier, seed):
     try:
         binary = vk.build_harness(race=False)
         # 1. exhaustive model checking of the specification, in parallel with the driver
-        ex = concurrent.futures.ThreadPoolExecutor(max_workers=4)
+        ex = concurrent.futures.ThreadPoolExecutor(max_workers=8)
         futs = []
         mcs = p.mc.get(tier, p.mc.get("quick", []))
         nw = max(2, vk.NCPU // max(1, len(mcs)) // 2)
@@ -299,3 +299,29 @@ reg(P("C15", "plugins", "c15",
       sig_reset=("side", "conc"), sig_event=("ev", "mgr", "h"),
       mutate=_c15_mutate, design_ref="DESIGN.md §6 C15",
       technique="TLC refinement check PluginManagerImpl => PluginChain + TLC trace validation of recorded traversals"))
+
+
+def _c16_mutate(rec):
+    if rec.get("ev") == "callE" and isinstance(rec.get("res"), dict) and "k" in rec["res"]:
+        rec["res"]["k"] = rec["res"]["k"] + 1
+        return rec
+    return None
+
+
+reg(P("C16", "plugins", "c16",
+      mc={"quick": [("ClusterImpl", "ClusterImpl_%s_%d.cfg" % (m, n), 300) for m in ("failover", "failtry", "failfast") for n in (1, 2, 3)]
+                   + [("ClusterImpl", "ClusterImpl_bug_sharedindex.cfg", 300, "violation")],
+          "thorough": [("ClusterImpl", "ClusterImpl_%s_%d.cfg" % (m, n), 300) for m in ("failover", "failtry", "failfast") for n in (1, 2, 3)]
+                      + [("ClusterImpl", "ClusterImpl_failover_big.cfg", 900),
+                         ("ClusterImpl", "ClusterImpl_bug_sharedindex.cfg", 300, "violation")]},
+      traces=[("", "ClusterTrace", "ClusterTrace.cfg")],
+      level="model_checking",
+      rule="cases = (failover|failtry|failfast) x 1..3 servers x retry budget 0..max x plugin-default idempotent x per-call "
+           "override x every outcome sequence over {ok,err,panic} of length retry+2; seeded sequences of 2-4 calls on one "
+           "client with per-call retry overrides and up to 4 servers; (forking|broadcast) x 1..3 servers x every outcome "
+           "vector x every completion order; non-trivial = at least one scripted failure; distinct by construction",
+      assumptions=["retry intervals are configured to zero", "fan-out completion order is the order in which the harness "
+                   "releases the parked attempts; a fork's success must be followed by the caller's return within 3 s"],
+      sig_reset=("mode",), sig_event=("ev",),
+      mutate=_c16_mutate, design_ref="DESIGN.md §6 C16",
+      technique="TLC refinement check ClusterImpl => Cluster + TLC trace validation of recorded attempts"))
